@@ -245,6 +245,7 @@ pub fn check_offsets(cx: &mut Ctx, asset: &Asset, before: &[u8], after: &[u8], w
     if asset.family != Family::Bmff {
         return;
     }
+    check_iloc_items(cx, asset, before, after, what);
     let (Some(a), Some(b)) = (bmff_samples(before), bmff_samples(after)) else { return };
     if a.iter().any(|x| x.is_err()) {
         return; // the input itself was inconsistent
@@ -265,6 +266,41 @@ pub fn check_offsets(cx: &mut Ctx, asset: &Asset, before: &[u8], after: &[u8], w
     }
 }
 
+/// C09 for HEIF-style item locations: every item resolved per ISO 14496-12 §8.11.3 (file,
+/// idat and item construction methods) yields the same bytes before and after.
+fn check_iloc_items(cx: &mut Ctx, asset: &Asset, before: &[u8], after: &[u8], what: &str) {
+    let Some(a) = crate::embed_heif::heif_items(before) else { return };
+    if a.iter().any(|x| x.data.is_err()) {
+        return; // the input itself was inconsistent
+    }
+    let Some(b) = crate::embed_heif::heif_items(after) else {
+        cx.fail("offset-broken-iloc", format!("{what}: the item location box can no longer be resolved after the operation"));
+        return;
+    };
+    if a.len() != b.len() {
+        cx.fail("offset-broken-iloc", format!("{what}: item count changed {} -> {}", a.len(), b.len()));
+        return;
+    }
+    for (x, y) in a.iter().zip(b.iter()) {
+        if x != y {
+            let was = x.data.as_ref().map(|v| hex::encode(&v[..v.len().min(12)])).unwrap_or_default();
+            cx.fail(
+                "offset-broken-iloc",
+                format!(
+                    "{what}: item {} (construction_method {}) no longer resolves to its data: {} (was {was}…)",
+                    x.id,
+                    x.cm,
+                    match &y.data {
+                        Ok(v) => format!("now {}…", hex::encode(&v[..v.len().min(12)])),
+                        Err(e) => e.clone(),
+                    }
+                ),
+            );
+            return;
+        }
+    }
+}
+
 fn fixture_asset(fam: Family, fmt: &'static str, name: &str) -> Asset {
     let bytes = std::fs::read(fixtures().join(name)).unwrap_or_default();
     Asset { family: fam, fmt, bytes, desc: format!("fixture:{name}"), existing: None }
@@ -279,6 +315,11 @@ pub fn gen_asset(fam: Family, rng: &mut Rng, existing: Option<&Store>) -> Asset 
     match fam {
         Family::Bmff => {
             // without an existing box only the position of mdat matters
+            if rng.chance(1, 2) {
+                let p = crate::embed_heif::gen_params(rng);
+                let layout = if existing.is_some() { rng.below(6) } else { *rng.pick(&[0u64, 1, 5]) };
+                return crate::embed_heif::gen_heif(rng, existing, layout, p);
+            }
             let layout = if existing.is_some() { rng.below(5) } else { rng.below(2) };
             let co64 = rng.chance(1, 3);
             gen_mp4(rng, existing, layout, co64)
@@ -307,6 +348,25 @@ pub fn replays(run: &mut Run, rng: &mut Rng, prop: &'static str) {
             }
         }
         run.count("replay_F15");
+        // item locations: every (version, construction methods, field sizes) × layout, with
+        // and without an existing C2PA box, growing / shrinking / removing
+        use crate::embed_heif::{gen_heif, IlocParams};
+        for version in 0u8..3 {
+            for (offset_size, base_offset_size) in [(4u8, 0u8), (4, 4), (8, 8), (0, 4), (8, 0), (4, 8)] {
+                for index_size in if version == 0 { vec![0u8] } else { vec![0u8, 4, 8] } {
+                    for layout in 0u64..6 {
+                        let p = IlocParams { version, offset_size, length_size: if offset_size == 8 { 8 } else { 4 }, base_offset_size, index_size };
+                        let mut r = rng.fork();
+                        let ex = gen_store(120, 1);
+                        let with = layout >= 2 || r.chance(1, 2);
+                        let a = gen_heif(&mut r, if with { Some(&ex) } else { None }, layout, p);
+                        let new_len = *r.pick(&[40usize, 120, 300]);
+                        one_case(run, prop, &a, &[Op::Write(gen_store(new_len, 2)), Op::Remove]);
+                    }
+                }
+            }
+        }
+        run.count("replay_iloc");
     }
     if prop == "C12" {
         // F5: trailing data after the end marker
@@ -324,5 +384,15 @@ pub fn replays(run: &mut Run, rng: &mut Rng, prop: &'static str) {
             }
         }
         run.count("replay_F5");
+        // ISO-box containers with a box map (JPEG XL): largesize headers, size-0 last box,
+        // brob / jbrd / unknown boxes, with and without a manifest
+        for k in 0..60 {
+            let mut r = rng.fork();
+            let ex = gen_store(64 + k, 3);
+            let with = k % 3 == 0;
+            let a = crate::embed_lex3::gen_jxl(&mut r, if with { Some(&ex) } else { None });
+            one_case(run, prop, &a, &[Op::BoxMap, Op::Write(gen_store(50 + k, 4)), Op::BoxMap, Op::Remove, Op::BoxMap]);
+        }
+        run.count("replay_jxl_boxes");
     }
 }
